@@ -1008,7 +1008,18 @@ def g_depth(rng, family=None):
         # at the limit (the initializer's construction must be refused) or right below the top (it must succeed, one level deeper)
         init_at = rng.choice([max(1, depth_to - 1), 1])
         fork_at = None
+    if family == "fork_top":
+        # the top-level executor itself uses the fork context (allowed at depth 0): its workers inherit the parent's module state,
+        # including the very context object (multiprocessing's per-method singleton) that was accepted there, and ask for it again
+        kind = "plain"
+        kw.update(context="fork", timeout=10)
+        ops[0] = {"op": "new", "ex": "e", "kind": kind, "kw": kw}
+        fork_at = 1
+        tmo = 10
     ops.append({"op": "submit", "ex": "e", "task": _nest_chain(rng, depth_to, ctxs=("loky", "loky", "loky_init_main"), timeouts=(10, 10, 0.1), fork_at=fork_at, variants=variants, init_at=init_at)})
+    if family == "fork_top":
+        # ... and a sibling chain that asks for loky workers from the forked worker (allowed while below the limit)
+        ops.append({"op": "submit", "ex": "e", "task": _nest_chain(rng, min(depth_to, 2), timeouts=(10,))})
     ops.append({"op": "wait", "futs": "all"})
     r = rng.random()
     if r < 0.35:
